@@ -29,6 +29,8 @@ structure BkState where
   -- C11 (inbound) oracle bookkeeping: connection -> packet ids of the client's own QoS 2 publishes that the broker
   -- accepted (PUBREC below 0x80) and has not completed (PUBCOMP) yet
   inOpen : List (Nat × List Nat) := []
+  -- C15: client ids of served connections already reported as unknown to the broker's Clients map
+  unknownLive : List Str := []
   msgs25 : List (String × Nat × Bool × Bool) := []
   sent25 : List (Str × String) := []
 
